@@ -181,4 +181,417 @@ theorem tree_book (R : Res) (id : Nat) (ae : Bool) (s : PState) (hn : NodupPendi
     · simp only [hid, if_true]; exact hnU
     · simp only [hid, if_false]; exact hn id'
 
+/-! ### swap-remove on the module list -/
+
+/-- Go: `mods[i] = mods[len(mods)-1]; mods = mods[:len(mods)-1]`, on the list of the array. -/
+def swapRemove (l : List Nat) (i : Nat) : List Nat := (l.set i (l.getLast?.getD 0)).dropLast
+
+theorem mem_dropLast_or (l : List Nat) (hl : l ≠ []) (x : Nat) (hx : x ∈ l) : x ∈ l.dropLast ∨ x = l.getLast?.getD 0 := by
+  have := List.dropLast_concat_getLast hl
+  rw [← this] at hx
+  rcases List.mem_append.mp hx with h | h
+  · exact Or.inl h
+  · right
+    simp only [List.mem_singleton] at h
+    rw [h, List.getLast?_eq_some_getLast hl]; rfl
+
+theorem getLast_mem' (l : List Nat) (hl : l ≠ []) : l.getLast?.getD 0 ∈ l := by
+  rw [List.getLast?_eq_some_getLast hl]; exact List.getLast_mem hl
+
+theorem swapRemove_spec : ∀ (l : List Nat) (i : Nat) (hi : i < l.length),
+    (∀ x ∈ swapRemove l i, x ∈ l) ∧ (∀ x ∈ l, x ≠ l[i] → x ∈ swapRemove l i) ∧
+    (∀ x ∈ l.drop (i + 1), x ∈ (swapRemove l i).drop i) ∧ (swapRemove l i).length + 1 = l.length
+  | [], i, hi => by simp at hi
+  | [a], i, hi => by
+    have : i = 0 := by simpa using hi
+    subst this
+    simp [swapRemove]
+  | a :: b :: t, 0, _ => by
+    have hne : b :: t ≠ [] := by simp
+    have hsr : swapRemove (a :: b :: t) 0 = ((b :: t).getLast?.getD 0) :: (b :: t).dropLast := by
+      simp [swapRemove, List.getLast?_cons_cons]
+    rw [hsr]
+    refine ⟨?_, ?_, ?_, ?_⟩
+    · intro x hx
+      rcases List.mem_cons.mp hx with rfl | hx
+      · exact List.mem_cons_of_mem _ (getLast_mem' _ hne)
+      · exact List.mem_cons_of_mem _ (List.dropLast_subset _ hx)
+    · intro x hx hne'
+      simp only [List.getElem_cons_zero] at hne'
+      rcases List.mem_cons.mp hx with rfl | hx
+      · exact absurd rfl hne'
+      · rcases mem_dropLast_or _ hne x hx with h | h
+        · exact List.mem_cons_of_mem _ h
+        · rw [h]; exact List.mem_cons_self
+    · intro x hx
+      simp only [List.drop_succ_cons, List.drop_zero] at hx ⊢
+      rcases mem_dropLast_or _ hne x hx with h | h
+      · exact List.mem_cons_of_mem _ h
+      · rw [h]; exact List.mem_cons_self
+    · simp
+  | a :: b :: t, j + 1, hi => by
+    have hj : j < (b :: t).length := by simpa using hi
+    obtain ⟨h1, h2, h3, h4⟩ := swapRemove_spec (b :: t) j hj
+    have hsr : swapRemove (a :: b :: t) (j + 1) = a :: swapRemove (b :: t) j := by
+      have hne : (b :: t).set j ((b :: t).getLast?.getD 0) ≠ [] := by
+        intro h; have := congrArg List.length h; simp at this
+      simp only [swapRemove, List.getLast?_cons_cons, List.set_cons_succ]
+      rw [List.dropLast_cons_of_ne_nil hne]
+    rw [hsr]
+    refine ⟨?_, ?_, ?_, ?_⟩
+    · intro x hx
+      rcases List.mem_cons.mp hx with rfl | hx
+      · exact List.mem_cons_self
+      · exact List.mem_cons_of_mem _ (h1 x hx)
+    · intro x hx hne'
+      simp only [List.getElem_cons_succ] at hne'
+      rcases List.mem_cons.mp hx with rfl | hx
+      · exact List.mem_cons_self
+      · exact List.mem_cons_of_mem _ (h2 x hx hne')
+    · intro x hx
+      simp only [List.drop_succ_cons] at hx ⊢
+      exact h3 x hx
+    · simp only [List.length_cons] at h4 ⊢; omega
+
+theorem swapRemove_toList (mods : Array Nat) (i : Nat) (h : i < mods.size) :
+    ((mods.set i (mods.back?.getD 0) h).pop).toList = swapRemove mods.toList i := by
+  simp [swapRemove]
+
+/-! ### the termination measure -/
+
+def keys (s : PState) : List Nat := s.pending.map (·.1)
+
+/-- Number of pending augments, counted per entry of the pending table. -/
+def mu (s : PState) : Nat := ((keys s).map fun i => (s.pendingOf i).length).sum
+
+theorem keys_setPending (s : PState) (id : Nat) (l : List Entry) : keys (s.setPending id l) = keys s := by
+  unfold keys PState.setPending
+  simp only [List.map_map]
+  apply List.map_congr_left
+  intro x _
+  obtain ⟨i, p⟩ := x
+  simp only [Function.comp]
+  split <;> rfl
+
+theorem mem_keys_of_pendingOf_ne_nil (s : PState) (id : Nat) (h : s.pendingOf id ≠ []) : id ∈ keys s := by
+  unfold PState.pendingOf at h
+  cases hf : s.pending.find? (·.1 == id) with
+  | none => simp [hf] at h
+  | some x =>
+    have h1 : x.1 = id := by simpa using List.find?_some hf
+    exact List.mem_map.mpr ⟨x, List.mem_of_find?_eq_some hf, h1⟩
+
+theorem sum_update (K : List Nat) (g g' : Nat → Nat) (id p : Nat) (hne : ∀ i, i ≠ id → g' i = g i)
+    (hid : g' id + p = g id) :
+    (K.map g').sum ≤ (K.map g).sum ∧ (id ∈ K → (K.map g').sum + p ≤ (K.map g).sum) := by
+  induction K with
+  | nil => simp
+  | cons k K ih =>
+    simp only [List.map_cons, List.sum_cons, List.mem_cons]
+    by_cases hk : k = id
+    · subst hk
+      refine ⟨by omega, fun _ => by omega⟩
+    · rw [hne k hk]
+      refine ⟨by omega, ?_⟩
+      rintro (h | h)
+      · exact absurd h.symm hk
+      · have := ih.2 h; omega
+
+/-- One call lowers the measure by at least the number of augments it applies. -/
+theorem mu_tree (R : Res) (id : Nat) (ae : Bool) (s : PState) :
+    keys (augmentTreeR R id ae s).1 = keys s ∧
+    mu (augmentTreeR R id ae s).1 + (augmentTreeR R id ae s).2.1 ≤ mu s := by
+  obtain ⟨f', U, tr, hrel, hval, hp⟩ := augmentTreeR_spec R id ae s
+  have hk : keys (augmentTreeR R id ae s).1 = keys s := by
+    rw [hval]; simp only; rw [keys_setPending]; rfl
+  refine ⟨hk, ?_⟩
+  unfold mu
+  rw [hk]
+  have hlen := hrel.length_eq
+  have hsum := sum_update (keys s) (fun i => (s.pendingOf i).length)
+    (fun i => ((augmentTreeR R id ae s).1.pendingOf i).length) id tr.length
+    (by intro i hi; simp only [hp, hi, if_false])
+    (by simp only [hp, if_true]; omega)
+  have hp1 : (augmentTreeR R id ae s).2.1 = tr.length := by rw [hval]
+  rw [hp1]
+  by_cases hin : id ∈ keys s
+  · exact hsum.2 hin
+  · have hnil : s.pendingOf id = [] := by
+      apply Classical.byContradiction
+      intro h; exact hin (mem_keys_of_pendingOf_ne_nil s id h)
+    rw [hnil] at hlen
+    simp only [List.length_nil] at hlen
+    have : tr.length = 0 := by omega
+    rw [this]; exact hsum.1
+
+theorem foldl_add_eq_sum {α : Type} (f : α → Nat) (l : List α) (n : Nat) :
+    l.foldl (fun n p => n + f p) n = n + (l.map f).sum := by
+  induction l generalizing n with
+  | nil => simp
+  | cons x xs ih => simp [List.foldl_cons, ih, Nat.add_assoc]
+
+theorem lookup_of_nodup (l : List (Nat × List Entry)) (hn : (l.map (·.1)).Nodup) :
+    ∀ p ∈ l, ((l.find? (·.1 == p.1)).map (·.2)).getD [] = p.2 := by
+  induction l with
+  | nil => simp
+  | cons x xs ih =>
+    simp only [List.map_cons, List.nodup_cons] at hn
+    intro p hp
+    rw [List.find?_cons]
+    rcases List.mem_cons.mp hp with rfl | hp
+    · simp
+    · have : ¬ x.1 = p.1 := fun h => hn.1 (h ▸ List.mem_map.mpr ⟨p, hp, rfl⟩)
+      have hb : (x.1 == p.1) = false := by simpa using this
+      rw [hb]; exact ih hn.2 p hp
+
+/-- With distinct keys in the pending table the measure is the count `processAll` uses. -/
+theorem mu_eq_total (s : PState) (hn : (keys s).Nodup) :
+    mu s = s.pending.foldl (fun n p => n + p.2.length) 0 := by
+  rw [foldl_add_eq_sum (fun p : Nat × List Entry => p.2.length)]
+  unfold mu keys
+  simp only [List.map_map, Nat.zero_add]
+  congr 1
+  apply List.map_congr_left
+  intro p hp
+  simp only [Function.comp, PState.pendingOf]
+  rw [lookup_of_nodup s.pending hn p hp]
+
+/-! ### one pass -/
+
+/-- Everything one pass does. `mods'`, `s'`: the module list and state it returns. -/
+theorem pass_spec (R : Res) (f0 : Forest) : ∀ (fuel : Nat) (mods : Array Nat) (i processed : Nat) (s : PState)
+    (tr : List Ev), FLe f0 s.forest → NodupPending s →
+    ∃ trn, (augmentPassR R fuel mods i processed s tr).2.2.2 = tr ++ trn ∧
+      (augmentPassR R fuel mods i processed s tr).2.1 = processed + trn.length ∧
+      Chain R f0 s.forest trn (augmentPassR R fuel mods i processed s tr).2.2.1.forest ∧
+      Book s (augmentPassR R fuel mods i processed s tr).2.2.1 trn ∧
+      keys (augmentPassR R fuel mods i processed s tr).2.2.1 = keys s ∧
+      mu (augmentPassR R fuel mods i processed s tr).2.2.1 + trn.length ≤ mu s ∧
+      (∀ m ∈ (augmentPassR R fuel mods i processed s tr).1.toList, m ∈ mods.toList) ∧
+      (∀ id ∈ mods.toList, (augmentPassR R fuel mods i processed s tr).2.2.1.pendingOf id ≠ [] →
+        id ∈ (augmentPassR R fuel mods i processed s tr).1.toList) ∧
+      (mods.size - i < fuel → trn = [] → ∀ id ∈ mods.toList.drop i, ∀ a ∈ s.pendingOf id,
+        ¬ (absAug R f0 id a).Applicable (viewOf s.forest))
+  | 0, mods, i, processed, s, tr, hle, hn => by
+    refine ⟨[], by simp [augmentPassR], by simp [augmentPassR], Chain.nil rfl (FLe.refl _), Book.refl hn, rfl, by simp [augmentPassR],
+      fun m h => h, fun id h _ => h, fun h => by omega⟩
+  | fuel + 1, mods, i, processed, s, tr, hle, hn => by
+    unfold augmentPassR
+    by_cases h : i < mods.size
+    · simp only [h, dite_true]
+      obtain ⟨f1, U, tr1, hrel, hval, hforest, hpend, hbook⟩ := tree_book R mods[i] false s hn
+      have hmu := mu_tree R mods[i] false s
+      have hrel' : FoldRel R mods[i] false (nsOfR R f0 mods[i]) s.forest (s.pendingOf mods[i]) f1 U tr1 := by
+        rw [← nsOfR_le R hle]; exact hrel
+      have hchain1 : Chain R f0 s.forest tr1 (augmentTreeR R mods[i] false s).1.forest := by
+        rw [hforest]; exact FoldRel.chain hrel'
+      have hle1 : FLe f0 (augmentTreeR R mods[i] false s).1.forest := hle.trans hchain1.le
+      have hn1 := hbook.nodupPending
+      have hp2 : (augmentTreeR R mods[i] false s).2.1 = tr1.length := by rw [hval]
+      have hk2 : (augmentTreeR R mods[i] false s).2.2.1 = U.length := by rw [hval]
+      have ht2 : (augmentTreeR R mods[i] false s).2.2.2 = tr1 := by rw [hval]
+      have hmem_i : mods[i] ∈ mods.toList := by simp
+      have hdrop : mods.toList.drop i = mods[i] :: mods.toList.drop (i + 1) := by
+        rw [List.drop_eq_getElem_cons (by simpa using h)]; simp
+      -- the common part of both branches, for the recursive call on (mods1, i1)
+      have common : ∀ (mods1 : Array Nat) (i1 : Nat),
+          (∀ m ∈ mods1.toList, m ∈ mods.toList) →
+          (∀ id ∈ mods.toList, id ≠ mods[i] ∨ U ≠ [] → id ∈ mods1.toList) →
+          (∀ id ∈ mods.toList.drop (i + 1), id ∈ mods1.toList.drop i1) →
+          mods1.size - i1 < mods.size - i →
+          ∃ trn, (augmentPassR R fuel mods1 i1 (processed + (augmentTreeR R mods[i] false s).2.1)
+              (augmentTreeR R mods[i] false s).1 (tr ++ (augmentTreeR R mods[i] false s).2.2.2)).2.2.2 = tr ++ trn ∧
+            (augmentPassR R fuel mods1 i1 (processed + (augmentTreeR R mods[i] false s).2.1)
+              (augmentTreeR R mods[i] false s).1 (tr ++ (augmentTreeR R mods[i] false s).2.2.2)).2.1 = processed + trn.length ∧
+            Chain R f0 s.forest trn (augmentPassR R fuel mods1 i1 (processed + (augmentTreeR R mods[i] false s).2.1)
+              (augmentTreeR R mods[i] false s).1 (tr ++ (augmentTreeR R mods[i] false s).2.2.2)).2.2.1.forest ∧
+            Book s (augmentPassR R fuel mods1 i1 (processed + (augmentTreeR R mods[i] false s).2.1)
+              (augmentTreeR R mods[i] false s).1 (tr ++ (augmentTreeR R mods[i] false s).2.2.2)).2.2.1 trn ∧
+            keys (augmentPassR R fuel mods1 i1 (processed + (augmentTreeR R mods[i] false s).2.1)
+              (augmentTreeR R mods[i] false s).1 (tr ++ (augmentTreeR R mods[i] false s).2.2.2)).2.2.1 = keys s ∧
+            mu (augmentPassR R fuel mods1 i1 (processed + (augmentTreeR R mods[i] false s).2.1)
+              (augmentTreeR R mods[i] false s).1 (tr ++ (augmentTreeR R mods[i] false s).2.2.2)).2.2.1 + trn.length ≤ mu s ∧
+            (∀ m ∈ (augmentPassR R fuel mods1 i1 (processed + (augmentTreeR R mods[i] false s).2.1)
+              (augmentTreeR R mods[i] false s).1 (tr ++ (augmentTreeR R mods[i] false s).2.2.2)).1.toList, m ∈ mods.toList) ∧
+            (∀ id ∈ mods.toList, (augmentPassR R fuel mods1 i1 (processed + (augmentTreeR R mods[i] false s).2.1)
+              (augmentTreeR R mods[i] false s).1 (tr ++ (augmentTreeR R mods[i] false s).2.2.2)).2.2.1.pendingOf id ≠ [] →
+              id ∈ (augmentPassR R fuel mods1 i1 (processed + (augmentTreeR R mods[i] false s).2.1)
+              (augmentTreeR R mods[i] false s).1 (tr ++ (augmentTreeR R mods[i] false s).2.2.2)).1.toList) ∧
+            (mods.size - i < fuel + 1 → trn = [] → ∀ id ∈ mods.toList.drop i, ∀ a ∈ s.pendingOf id,
+              ¬ (absAug R f0 id a).Applicable (viewOf s.forest)) := by
+        intro mods1 i1 hsub hkeep hdrop1 hsize
+        obtain ⟨trn2, e1, e2, hchain2, hbook2, hkeys2, hmu2, hsub2, hcov2, hcomp2⟩ :=
+          pass_spec R f0 fuel mods1 i1 (processed + (augmentTreeR R mods[i] false s).2.1)
+            (augmentTreeR R mods[i] false s).1 (tr ++ (augmentTreeR R mods[i] false s).2.2.2) hle1 hn1
+        refine ⟨tr1 ++ trn2, ?_, ?_, hchain1.append hchain2, hbook.trans hbook2, hkeys2.trans hmu.1, ?_,
+          fun m hm => hsub m (hsub2 m hm), ?_, ?_⟩
+        · rw [e1, ht2, List.append_assoc]
+        · rw [e2, hp2, List.length_append]; omega
+        · have := hmu.2; rw [hp2] at this; rw [List.length_append]; omega
+        · intro id hid hne
+          apply hcov2 id _ hne
+          apply hkeep id hid
+          by_cases hidm : id = mods[i]
+          · right
+            intro hU
+            apply hne
+            have hsub' : ∀ a ∈ (augmentPassR R fuel mods1 i1 (processed + (augmentTreeR R mods[i] false s).2.1)
+                (augmentTreeR R mods[i] false s).1 (tr ++ (augmentTreeR R mods[i] false s).2.2.2)).2.2.1.pendingOf id,
+                a ∈ (augmentTreeR R mods[i] false s).1.pendingOf id := fun a ha => ((hbook2.pending id a).mp ha).1
+            rw [hpend, if_pos hidm, hU] at hsub'
+            exact List.eq_nil_iff_forall_not_mem.mpr (fun a ha => by simpa using hsub' a ha)
+          · exact Or.inl hidm
+        · intro hfuel htrn
+          have htr1 : tr1 = [] := (List.append_eq_nil_iff.mp htrn).1
+          have htrn2 : trn2 = [] := (List.append_eq_nil_iff.mp htrn).2
+          subst htr1
+          obtain ⟨hU, hv1, hna⟩ := FoldRel.nothing hrel'
+          have hpend_same : ∀ id', (augmentTreeR R mods[i] false s).1.pendingOf id' = s.pendingOf id' := by
+            intro id'
+            rw [hpend]
+            by_cases hid : id' = mods[i]
+            · rw [if_pos hid, hU, hid]
+            · rw [if_neg hid]
+          have hview_same : viewOf (augmentTreeR R mods[i] false s).1.forest = viewOf s.forest := by
+            rw [hforest]; exact hv1
+          have hrest := hcomp2 (by omega) htrn2
+          intro id hid a ha
+          rw [hdrop] at hid
+          rcases List.mem_cons.mp hid with rfl | hid
+          · exact hna a ha f0
+          · have := hrest id (hdrop1 id hid) a (by rw [hpend_same]; exact ha)
+            rw [hview_same] at this
+            exact this
+      by_cases hk : ((augmentTreeR R mods[i] false s).2.2.1 == 0) = true
+      · simp only [hk, if_true]
+        have hU : U = [] := by
+          have : U.length = 0 := by rw [← hk2]; simpa using hk
+          exact List.eq_nil_of_length_eq_zero this
+        obtain ⟨s1, s2, s3, s4⟩ := swapRemove_spec mods.toList i (by simpa using h)
+        apply common
+        · intro m hm; rw [swapRemove_toList] at hm; exact s1 m hm
+        · intro id hid hor
+          rw [swapRemove_toList]
+          rcases hor with hne | hne
+          · apply s2 id hid
+            simpa using hne
+          · exact absurd hU hne
+        · intro id hid; rw [swapRemove_toList]; exact s3 id hid
+        · have : ((mods.set i (mods.back?.getD 0) h).pop).size + 1 = mods.size := by
+            have := congrArg List.length (swapRemove_toList mods i h)
+            simp only [Array.length_toList] at this
+            rw [this]; simpa using s4
+          omega
+      · simp only [hk, Bool.false_eq_true, if_false]
+        apply common
+        · exact fun m hm => hm
+        · exact fun id hid _ => hid
+        · exact fun id hid => hid
+        · omega
+    · simp only [h, dite_false]
+      refine ⟨[], by simp, by simp, Chain.nil rfl (FLe.refl _), Book.refl hn, by first | rfl | trivial, by simp,
+        fun m h => h, fun id h _ => h, ?_⟩
+      intro _ _ id hid
+      have : mods.toList.drop i = [] := List.drop_eq_nil_of_le (by simp; omega)
+      rw [this] at hid
+      cases hid
+
+/-! ### the loop -/
+
+/-- Every tree with pending augments is in the module list. -/
+def Cover (s : PState) (mods : Array Nat) : Prop := ∀ id, s.pendingOf id ≠ [] → id ∈ mods.toList
+
+/-- Everything the loop does: its trace is a chain of successful attempts from the initial to the
+final forest, the pending sets shrink by exactly the applied augments, and — when the fuel
+exceeds the number of pending augments — no pending augment is applicable in the final forest. -/
+theorem loop_spec (R : Res) (f0 : Forest) : ∀ (fuel : Nat) (mods : Array Nat) (s : PState) (tr : List Ev),
+    FLe f0 s.forest → NodupPending s → Cover s mods →
+    ∃ trn, (augmentLoopR R fuel mods s tr).2.2 = tr ++ trn ∧
+      Chain R f0 s.forest trn (augmentLoopR R fuel mods s tr).2.1.forest ∧
+      Book s (augmentLoopR R fuel mods s tr).2.1 trn ∧
+      keys (augmentLoopR R fuel mods s tr).2.1 = keys s ∧
+      (∀ m ∈ (augmentLoopR R fuel mods s tr).1.toList, m ∈ mods.toList) ∧
+      Cover (augmentLoopR R fuel mods s tr).2.1 (augmentLoopR R fuel mods s tr).1 ∧
+      (mu s < fuel → ∀ id, ∀ a ∈ (augmentLoopR R fuel mods s tr).2.1.pendingOf id,
+        ¬ (absAug R f0 id a).Applicable (viewOf (augmentLoopR R fuel mods s tr).2.1.forest))
+  | 0, mods, s, tr, hle, hn, hcov => by
+    exact ⟨[], by simp [augmentLoopR], Chain.nil rfl (FLe.refl _), Book.refl hn, rfl, fun m h => h, hcov,
+      fun h => by omega⟩
+  | fuel + 1, mods, s, tr, hle, hn, hcov => by
+    unfold augmentLoopR
+    by_cases he : mods.isEmpty = true
+    · simp only [he, if_true]
+      refine ⟨[], by simp, Chain.nil rfl (FLe.refl _), Book.refl hn, rfl, fun m h => h, hcov, ?_⟩
+      intro _ id a ha
+      have hne : s.pendingOf id ≠ [] := by intro h; rw [h] at ha; cases ha
+      have := hcov id hne
+      have hnil : mods.toList = [] := by simpa using he
+      rw [hnil] at this
+      cases this
+    · simp only [he, Bool.false_eq_true, if_false]
+      obtain ⟨trn1, e1, e2, hchain1, hbook1, hkeys1, hmu1, hsub1, hcov1, hcomp1⟩ :=
+        pass_spec R f0 (mods.size + 1) mods 0 0 s tr hle hn
+      have hpend_sub : ∀ id, (augmentPassR R (mods.size + 1) mods 0 0 s tr).2.2.1.pendingOf id ≠ [] →
+          s.pendingOf id ≠ [] := by
+        intro id hne hnil
+        apply hne
+        apply List.eq_nil_iff_forall_not_mem.mpr
+        intro a ha
+        have := ((hbook1.pending id a).mp ha).1
+        rw [hnil] at this
+        cases this
+      have hcov' : Cover (augmentPassR R (mods.size + 1) mods 0 0 s tr).2.2.1
+          (augmentPassR R (mods.size + 1) mods 0 0 s tr).1 :=
+        fun id hne => hcov1 id (hcov id (hpend_sub id hne)) hne
+      by_cases h0 : ((augmentPassR R (mods.size + 1) mods 0 0 s tr).2.1 == 0) = true
+      · simp only [h0, if_true]
+        have hlen : trn1.length = 0 := by
+          have : (augmentPassR R (mods.size + 1) mods 0 0 s tr).2.1 = 0 := by simpa using h0
+          rw [e2] at this; omega
+        have htrn1 : trn1 = [] := List.eq_nil_of_length_eq_zero hlen
+        refine ⟨trn1, e1, hchain1, hbook1, hkeys1, hsub1, hcov', ?_⟩
+        intro _ id a ha
+        subst htrn1
+        have ha' := ((hbook1.pending id a).mp ha).1
+        have hne : s.pendingOf id ≠ [] := by intro h; rw [h] at ha'; cases ha'
+        have hin := hcov id hne
+        have := hcomp1 (by omega) rfl id (by simpa using hin) a ha'
+        rw [hchain1.view_nil]
+        exact this
+      · simp only [h0, Bool.false_eq_true, if_false]
+        have hpos : 0 < trn1.length := by
+          have : (augmentPassR R (mods.size + 1) mods 0 0 s tr).2.1 ≠ 0 := by simpa using h0
+          rw [e2] at this; omega
+        obtain ⟨trn2, e3, hchain2, hbook2, hkeys2, hsub2, hcov2, hcomp2⟩ :=
+          loop_spec R f0 fuel (augmentPassR R (mods.size + 1) mods 0 0 s tr).1
+            (augmentPassR R (mods.size + 1) mods 0 0 s tr).2.2.1
+            (augmentPassR R (mods.size + 1) mods 0 0 s tr).2.2.2
+            (hle.trans hchain1.le) hbook1.nodupPending hcov'
+        refine ⟨trn1 ++ trn2, ?_, hchain1.append hchain2, hbook1.trans hbook2, hkeys2.trans hkeys1,
+          fun m hm => hsub1 m (hsub2 m hm), hcov2, ?_⟩
+        · rw [e3, e1, List.append_assoc]
+        · intro hfuel
+          exact hcomp2 (by omega)
+
+/-- No truncation: above the number of pending augments the fuel does not matter. -/
+theorem loop_fuel_irrelevant (R : Res) : ∀ (fuel1 fuel2 : Nat) (mods : Array Nat) (s : PState) (tr : List Ev),
+    NodupPending s → mu s < fuel1 → mu s < fuel2 →
+    augmentLoopR R fuel1 mods s tr = augmentLoopR R fuel2 mods s tr
+  | 0, _, _, _, _, _, h, _ => by omega
+  | _ + 1, 0, _, _, _, _, _, h => by omega
+  | fuel1 + 1, fuel2 + 1, mods, s, tr, hn, h1, h2 => by
+    unfold augmentLoopR
+    by_cases he : mods.isEmpty = true
+    · simp only [he, if_true]
+    · simp only [he, Bool.false_eq_true, if_false]
+      obtain ⟨trn1, _, e2, _, hbook1, _, hmu1, _, _, _⟩ :=
+        pass_spec R s.forest (mods.size + 1) mods 0 0 s tr (FLe.refl _) hn
+      by_cases h0 : ((augmentPassR R (mods.size + 1) mods 0 0 s tr).2.1 == 0) = true
+      · simp only [h0, if_true]
+      · simp only [h0, Bool.false_eq_true, if_false]
+        have hpos : 0 < trn1.length := by
+          have : (augmentPassR R (mods.size + 1) mods 0 0 s tr).2.1 ≠ 0 := by simpa using h0
+          rw [e2] at this; omega
+        exact loop_fuel_irrelevant R fuel1 fuel2 _ _ _ hbook1.nodupPending (by omega) (by omega)
+
 end Goyang.Lemmas.AugmentLoop
